@@ -2,7 +2,7 @@
    spec_equals; the equals dispatch table against the RFC list of case-insensitive types. *)
 From QV Require Import Base.ListX Model.NameWire Spec.NameWireS Spec.NameRepr Proofs.NameWireP
   Proofs.NameWireSP Model.RdataM Spec.RdataFormatS Spec.RdataEqS Proofs.RdNameP Proofs.RdataFormatSP
-  Proofs.RdataVP Proofs.RdataRP Proofs.RdNameEqP Proofs.RdataEqSP.
+  Proofs.RdataVP Proofs.RdataRP Proofs.RdNameEqP Proofs.RdataEqSP Model.RdataSetM Proofs.RdataSetP.
 Local Open Scope nat_scope.
 
 Lemma decode0_facts a ls n : spec_decode_name a 0 = Some (ls, n) ->
@@ -164,3 +164,23 @@ Theorem equals_prefix_asym :
   equals_prefix 1 2 [1; 97; 0]%N [1; 97; 0; 9]%N = Ok true /\
   equals_prefix 1 2 [1; 97; 0; 9]%N [1; 97; 0]%N = Ok false.
 Proof. split; vm_compute; reflexivity. Qed.
+
+(* which (class, type) the partial theorems cover: everything except SOA, MINFO, MX, CH A, IN SRV *)
+Theorem covered_types c t :
+  char_proved (lookup equals_arms equals_default c t) =
+  negb (one_of t [6; 14; 15]%N || ((c =? 3)%N && (t =? 1)%N) || ((c =? 1)%N && (t =? 33)%N)).
+Proof.
+  unfold one_of, equals_arms, equals_default. unfold_types.
+  cbn [lookup]. unfold arm_matches. cbn [existsb fst snd]. case_types c t.
+Qed.
+
+Theorem set_partial c t be rs :
+  char_proved (lookup equals_arms equals_default c t) = true ->
+  Forall small rs -> Forall wf_bytes rs ->
+  forall inner, from_iter be c t rs = Ok (Some inner) ->
+  set_iter be inner = nodup_by (spec_equals c t) [] rs.
+Proof.
+  intros P Hs Hw.
+  apply (from_iter_spec c t (spec_equals c t) rs); auto; [|apply incl_refl].
+  intros x y Hx Hy. rewrite Forall_forall in Hw. apply equals_char_partial; auto.
+Qed.
